@@ -307,7 +307,9 @@ def load_parameters(param_file: str | pathlib.Path) -> list[dict]:
     List of the parameters dictionaries.
     """
 
-    fp = pathlib.Path(param_file).stem + '.yaml'
+    fp = pathlib.Path(param_file)
+    if not fp.suffix:
+        fp = fp.with_suffix('.yaml')
     with open(fp, mode='rb') as f:
         config = yaml.safe_load(f)
 
